@@ -21,7 +21,7 @@ from concurrent.futures import ThreadPoolExecutor
 
 import vlib
 
-CFGS_ALL = ["MC_guards_q", "MC_serial", "MC_planman", "MC_planedit", "MC_serial3", "MC_plan_q", "MC_payload_q", "MC_log", "MC_inj", "MC_peer"]
+CFGS_ALL = ["MC_guards_q", "MC_serial", "MC_planman", "MC_planedit", "MC_serial3", "MC_plan_q", "MC_payload_q", "MC_log", "MC_inj", "MC_injplan", "MC_peer"]
 
 # (name, file, old, new, configurations to try in order, what implementation defect it models)
 M = []
